@@ -688,11 +688,16 @@ def _judge_execution(reactor, params, s, progs, wire, nwrites, rec, part, extra,
         part.count('executions_with_preemption')
     if any(envinfo.values()):
         part.count('executions_with_delayed_or_short_socket_write')
+    lp = list(params.get('loop') or ())
+    if len(lp) > 1:
+        part.count('executions_with_several_pushes_inside_one_loop_callback')
+        if min(lp) <= N < max(lp):
+            part.count('executions_with_chunked_and_single_chunk_pushes_inside_one_loop_callback')
     part.count('socket_writes', nwrites)
     npre = sum(1 for p in s.trace if p.cost and p.chosen)
     # prefer a sample that shows something: a preempted execution in which pushes overlapped
     kind = [reactor, bool(params.get('loop')), bool(params.get('cold')), len(params['msgs']),
-            max(max(m) for m in params['msgs']) > N]
+            max([n for m in params['msgs'] for n in m] + list(params.get('loop') or ())) > N]
     if npre and rec.overlap(progs) and not any(x.get('kind') == kind for x in part.samples):
         runs = []
         for tid, _ in s.log:
